@@ -36,6 +36,8 @@ type soloCfg struct {
 	NoStart  bool     `json:"no_start,omitempty"`  // do not call StartDial/StartAccept
 	NoSignal bool     `json:"no_signal,omitempty"` // do not signal remote candidates up front
 	Extra    string   `json:"extra,omitempty"`     // model-specific
+	// RejectRemote is a CIDR whose addresses the remote IP filter rejects
+	RejectRemote string `json:"reject_remote,omitempty"`
 }
 
 type soloWorld struct {
@@ -109,6 +111,13 @@ func newSoloWorld(raw json.RawMessage) *soloWorld {
 	}
 	if cfg.KeepMs != 0 {
 		opts = append(opts, WithKeepaliveInterval(ms(cfg.KeepMs)))
+	}
+	if cfg.RejectRemote != "" {
+		_, reject, err := net.ParseCIDR(cfg.RejectRemote)
+		if err != nil {
+			panic(err)
+		}
+		opts = append(opts, WithRemoteIPFilter(func(ip net.IP) bool { return !reject.Contains(ip) }))
 	}
 	a, err := NewAgentWithOptions(opts...)
 	if err != nil {
